@@ -81,7 +81,7 @@ JS_RESERVED_PARAMS = {"Function", "arguments", "await_", "case", "catch", "class
                       "function", "import", "instanceof", "interface", "new", "null", "package", "private", "protected", "public",
                       "switch", "this", "throw", "try_", "var", "void", "with", "yield_"}
 MACRO_NAMES = {"NULL", "errno"}
-PARAM_COLLISIONS = {"result", "this"}
+PARAM_COLLISIONS = {"result", "this", "write", "output"}
 
 
 def idents(p, position="other"):
